@@ -406,7 +406,12 @@ impl Scenario for Discover {
             let mut work: Vec<String> = touched.iter().cloned().collect();
             while let Some(t) = work.pop() {
                 for it in inp.spec.file(&t).map(|f| f.items.clone()).unwrap_or_default() {
-                    if let Item::Star { target: Some(x), .. } = it {
+                    let targets: Vec<String> = match it {
+                        Item::Star { target: Some(x), .. } | Item::Import { target: Some(x), .. } => vec![x],
+                        Item::Plugins { targets, .. } => targets.into_iter().flatten().collect(),
+                        _ => vec![],
+                    };
+                    for x in targets {
                         if via_touched.insert(x.clone()) {
                             work.push(x);
                         }
